@@ -59,7 +59,7 @@ MkA(tm) == [k |-> "a", name |-> "A", ver |-> 0, key |-> FALSE, cts |-> 0, n |-> 
 
 TsCons == {"t1", "t2"}
 Init == /\ vc = VCodec /\ ac = ACodec /\ hist = HistInit
-        /\ cons = [c \in {"t1", "t2", "hls"} |-> ConsInit] /\ rtp = RtpInit
+        /\ cons = [c \in {"t1", "t2", "hls"} |-> ConsInit] /\ rtp = [c \in RtpCons |-> RtpInit]
         /\ rm = [RmInit EXCEPT !.sub["t1"] = [in |-> TRUE, fresh |-> TRUE, wait |-> TRUE]]
         /\ uid = 0 /\ now = T0 /\ npub = 0 /\ ended = FALSE
         /\ act = [name |-> "init"]
